@@ -861,7 +861,7 @@ class Representation:
                 "different presentations"
             )
         else:
-            product_rep = Representation()
+            product_rep = Representation(parse_simple=self.parse_simple)
             for gen in self.asym_gens():
                 tens = np.tensordot(self[gen], rep[gen], axes=0)
                 elt = np.concatenate(np.concatenate(tens, axis=1), axis=1)
@@ -881,7 +881,7 @@ class Representation:
         tensor_rep = self.tensor_product(self)
         incl = symmetric_inclusion(self._dim)
         proj = symmetric_projection(self._dim)
-        square_rep = Representation()
+        square_rep = Representation(parse_simple=self.parse_simple)
         for g in self.asym_gens():
             square_rep[g] = proj @ tensor_rep[g] @ incl
 
